@@ -12,7 +12,7 @@ From Coq Require Import List ZArith NArith Bool.
 From BBS Require Import Common.Sx Buffer.Source Buffer.Validate Buffer.Convert Buffer.ErrHandler
   Buffer.StreamProofs Buffer.ValidateProofs Buffer.ErrHandlerProofs Buffer.ClosedOnceProofs
   Buffer.ErrHandlerStackProofs Buffer.StackRuleProofs Buffer.ValidateReaderProofs Buffer.ConvertProofs
-  Buffer.EHFullCarry Buffer.EHFullReader Buffer.EHFullMethods Buffer.EHFullStack Run.R09 Run.R16 Run.R16Proofs.
+  Buffer.EHFullCarry Buffer.EHFullReader Buffer.EHFullMethods Buffer.EHFullStack Buffer.EHFullMon Run.R09 Run.R16 Run.R16Proofs.
 Import ListNotations.
 Open Scope N_scope.
 
@@ -297,6 +297,20 @@ Theorem stack_rule_clause_silent_on_model : forall inp,
 Proof. exact clause_10_silent_on_model. Qed.
 Print Assumptions stack_rule_clause_silent_on_model.
 
+(** Clause 1 (Done reported exactly once to the outermost handler) is silent
+    on the model as well, for every input with at least one handler (the
+    harness's domain); without a handler there is no Done count to look at and
+    the clause fires ([clause1_needs_a_handler], Buffer/EHFullMon.v).  Clauses
+    2-7 (the stitching / validity clauses, which compare the observation with
+    the specification functions [stitch_stack] / [buffer_in_use]) are checked on
+    every implementation run but not proved silent on the model: see
+    [content_carrier_insufficient_for_attaching_readers] for an input outside
+    the harness's domain on which 3, 4, 5 and 7 fire on the model itself. *)
+Theorem clause_1_silent_on_model : forall inp,
+  q_anss (dec_case16 inp) <> [] -> last (obs_dones (run16 inp)) 0%Z = 1%Z.
+Proof. exact EHFullMon.clause_1_silent_on_model. Qed.
+Print Assumptions clause_1_silent_on_model.
+
 (** Non-vacuity: the original fails after one byte, the replacement is opened
     at offset 1; the consumer gets 1,2,3 once each, validation succeeds, the
     error 14 is offered once and Done is reported once. *)
@@ -389,3 +403,16 @@ Example c16_stack_carries :
   = mkOut16s [1; 2; 3] EEof [] [true]
              [[HOnError (ECode 14); HDone]; [HOnError (ECode 7); HDone]] [1%nat; 1%nat] [].
 Proof. vm_compute. split; [exists []; auto|reflexivity]. Qed.
+
+(** The same input in the monitor's encoding (digest of 1,2,7; the table holds
+    the hashes): the model completes with 1,2,7 without any OnError call and the
+    monitor's stitching clauses 3, 4, 5, 7 fire on the model's own observation.
+    The harness rejects this input (readers that attach a non-repeated error to
+    data are excluded, lib/props.d/C16.py). *)
+Example stitching_clauses_fire_outside_the_domain :
+  let inp := L [A 1; L [A 3; L [A 9; A 9]; A 3];
+                L [A 1; A 1; L [L [A 0; L [A 1; A 2]]; L [A 1; A 14]; L [A 0; L [A 7]]; L [A 2]]];
+                L [L []]; L [A 3; A 0; A 2; A 0]; L [L [L [A 1; A 2; A 7]; L [A 9; A 9]]]] in
+  run16 inp = L [L [A 1; A 2; A 7]; A (-1); L []; L [A 1]; L [L []]; L [A 1]; L []; L [A 1]] /\
+  mon16 inp (run16 inp) = [3; 4; 7; 5]%Z.
+Proof. vm_compute. auto. Qed.
